@@ -291,7 +291,8 @@ type exec struct {
 	hold          chan struct{}
 	runFn, waitFn func()
 	loopName      string
-	runs, extra   int // Run() calls so far; consumer goroutines added by calls after the first
+	rerunning     bool // inside a Run() call after the first
+	runs, extra   int  // Run() calls so far; consumer goroutines added by calls after the first
 }
 
 var currentScript []string
@@ -306,6 +307,10 @@ func harnessFail(err error) {
 }
 
 func (e *exec) hit(key, what string) {
+	if (e.extra > 0 || e.rerunning) && !strings.HasSuffix(key, ".Run:second-call-adds-consumer") {
+		// whatever else goes wrong on a lane with two consumers is a consequence of that one root cause
+		key, what = "C14:"+kindName(e.kind)+".Run:two-consumers-on-one-lane", "with the extra consumer(s) running: "+what
+	}
 	if e.hits == nil {
 		e.hits = map[string]string{}
 	}
@@ -361,6 +366,9 @@ func newExec(kind string, lanes, capQ int) *exec {
 // the number of goroutines inside this executor's popLoop is counted before and after.
 func (e *exec) run() {
 	before := c14q.CountIn(e.loopName)
+	e.mu.Lock()
+	e.rerunning = e.runs > 0
+	e.mu.Unlock()
 	e.runFn()
 	e.runs++
 	if e.runs == 1 {
@@ -368,6 +376,9 @@ func (e *exec) run() {
 		e.exit = e.s.Go("exit", func() string { wait(); return "exited" })
 	}
 	e.settle()
+	e.mu.Lock()
+	e.rerunning = false
+	e.mu.Unlock()
 	if e.runs > 1 {
 		if after := c14q.CountIn(e.loopName); after > before {
 			e.extra += after - before
